@@ -122,6 +122,11 @@ def _case(draw, n_hi, mazes_hi, modes, max_procs):
     if draw(st.booleans()):
         spec["endpoint"] = draw(_endpoint(spec["grid_n"]))
     mode = draw(st.sampled_from(modes))
+    if draw(st.integers(0, 3)) == 0:
+        # occasionally many mazes on a small grid: batching / chunking of the work list only shows with counts well above the pool size
+        spec["n_mazes"] = draw(st.sampled_from([13, 16, 17, 23, 31, 32, 33, 37, 50, 64, 65, 100, 101] if spec["grid_n"] <= 4 else [13, 16, 17, 23, 33]))
+        if "endpoint" in spec:
+            spec["endpoint"] = {k: v for k, v in spec["endpoint"].items() if k in ("deadend_start", "deadend_end", "endpoints_not_equal")}
     case = {"spec": spec, "mode": mode}
     if mode == "parallel":
         case["procs"] = draw(st.integers(1, max_procs))
